@@ -1,6 +1,7 @@
 (* Properties/C08.v -- C08: multiphase: each phase evolves independently with its own volume factor *)
 From Coq Require Import Reals ZArith List Permutation.
-From PV Require Import Num NumR Model_core Model_minerals Proofs_core Proofs_minerals Proofs_rhs.
+From Coquelicot Require Import Hierarchy Derive.
+From PV Require Import Num NumR Model_core Model_minerals Proofs_core Proofs_minerals Proofs_rhs Proofs_path Proofs_path2.
 Import ListNotations.
 Open Scope R_scope.
 
@@ -33,3 +34,25 @@ Proof. exact lookup_by_position_refuted. Qed.
 
 Example C08_nonvacuous : NoDup [0; 1]%Z /\ Permutation (combine [0; 1]%Z [0.7; 0.3]) (combine [1; 0]%Z [0.3; 0.7]).
 Proof. exact C08_nonvacuous_proof. Qed.
+
+(* ---- capstone for the texture ODE itself ----------------------------------------------------------
+   f ... ass frs ... M Lh sh t z i (Proofs_path.f) is component i of the modelled eval_rhs of a mineral of phase
+   ph in the assemblage ass with fractions frs and mobility M.  If phi is that mineral's own fraction, the
+   whole vector field (F block, orientation block, volume block; every time, every state) is the vector field
+   of the SINGLE-phase problem (assemblage [ph], fraction 1) with mobility phi.M; hence the two problems have
+   exactly the same exact solutions -- no other phase, fraction or list order enters *)
+Theorem C08_multiphase_solution_is_single_phase :
+  forall (regime ph fb : Z) (n : nat) (ass : list Z) (frs Sd : list R) (p nn lam M phi : R)
+         (Lh : R -> list R) (sh : R -> R) (y : nat -> R -> R) (a b : R),
+  @lookup_fraction NumR ph ass frs = Ok phi ->
+  (forall t z i, f regime ph fb n ass frs Sd p nn lam M Lh sh t z i
+               = f regime ph fb n [ph] [1] Sd p nn lam (phi * M) Lh sh t z i) /\
+  ((forall i t, a <= t <= b ->
+      is_derive (y i) t (f regime ph fb n ass frs Sd p nn lam M Lh sh t (fun j => y j t) i))
+   <-> (forall i t, a <= t <= b ->
+          is_derive (y i) t (f regime ph fb n [ph] [1] Sd p nn lam (phi * M) Lh sh t (fun j => y j t) i))).
+Proof. exact multiphase_solution_is_single_phase. Qed.
+
+(* non-vacuity: enstatite (phase 1) holds the fraction 0.3 in the assemblage [olivine; enstatite] *)
+Example C08_solution_nonvacuous : @lookup_fraction NumR 1 [0; 1]%Z [0.7; 0.3] = Ok 0.3.
+Proof. exact C08_solution_nonvacuous_proof. Qed.
